@@ -45,6 +45,27 @@ def sibling_control(match_keys, vary_key):
     return f
 
 
+def c18_control(e, g):
+    """C18: the same request toward another destination, or for another registered token (other salt / other
+    canonical token, same caller, payer, gas and destination) that the specification also accepts - the
+    property's own dimensions (destination, token and its metadata) relaxed one at a time"""
+    if not e['exp']['ok']:
+        return None
+    a = e['act']
+    alts = []
+    for vary in ('dest', 'salt', 'tok'):
+        keep = [k for k in ("name", "caller", "salt", "tok", "spender", "auth", "gas", "dest") if k != vary]
+        for ei in g.out[e['_pre']]:
+            o = g.edges[ei]
+            b = o['act']
+            if o is e or not o['exp']['ok'] or b['name'] != a['name'] or vary not in b:
+                continue
+            if all(b.get(k) == a.get(k) for k in keep) and b.get(vary) != a.get(vary):
+                alts.append([b])
+                break
+    return alts or None
+
+
 def latest_proof_control(e, g):
     """C08: the same call with a proof from the newest set"""
     if not e['exp']['ok'] or 'proof' not in e['act']:
@@ -188,7 +209,10 @@ PROPS = {
     },
     "C08": {
         "title": "Old signer sets stay valid for exactly the configured number of rotations",
-        "policy": {"guards": ["retention", "latest_or_bypass"], "fields": [], "events": [], "rets": ["ValidateProof"],
+        # `duplicate`: a set installed a second time has two epochs - whichever one the lookup keeps, the window
+        # statement is false for the other installation (its proofs are honoured after expiry, or the newest set
+        # is refused), so accepting a repeated set is this property's business as well as C03's
+        "policy": {"guards": ["retention", "latest_or_bypass", "duplicate"], "fields": [], "events": [], "rets": ["ValidateProof"],
                    # "is honoured while at most the configured retention number of newer sets have been installed":
                    # a proof signed by EVERY member of a retained set must be accepted (which subsets suffice is C01's)
                    "complete_actions": ["ApproveMessages", "ValidateProof"], "complete_when": "full_proof"},
@@ -213,7 +237,8 @@ PROPS = {
             {"kind": "graph", "spec": "MC_C09", "cfg": "MC_C09_%s" % d, "module": "Gateway", "evkinds": GW_EVENTS,
              "need": ["RotateSigners/ok", "RotateSigners/operator_auth", "Tick/ok"] + ([] if d == "d0" else ["RotateSigners/delay"]),
              "control": wait_longer_control}
-            for d in ["d0", "d1", "d10", "d10big"]
+            # d10z / d10top: the absolute ledger clock is 0 / within 1000 s of u64::MAX at deployment
+            for d in ["d0", "d1", "d10", "d10big", "d10z", "d10top"]
         ] + [
             {"kind": "graph", "spec": "MC_C09", "cfg": "MC_C09_d30", "tiers": ["thorough"], "module": "Gateway", "evkinds": GW_EVENTS,
              "need": ["RotateSigners/ok", "RotateSigners/delay"], "control": wait_longer_control},
@@ -423,9 +448,9 @@ PROPS = {
                    "events": ["contract_called", "gas_paid"], "rets": ["DeployRemoteInterchainToken", "DeployRemoteCanonical"]},
         "jobs": [
             {"kind": "graph", "spec": "MC_C18", "cfg": "MC_C18_small", "tiers": ["quick"], "module": "ITS", "evkinds": ITS_EVENTS,
-             "need": C18_NEED, "control": sibling_control(["name", "caller", "salt", "tok", "spender", "auth", "gas"], "dest"), "max_len": 40, "workers": 16},
+             "need": C18_NEED, "control": c18_control, "max_len": 40, "workers": 16},
             {"kind": "graph", "spec": "MC_C18", "cfg": "MC_C18_full", "tiers": ["thorough"], "module": "ITS", "evkinds": ITS_EVENTS,
-             "need": C18_NEED + ["DeployRemoteCanonical/encodable"], "control": sibling_control(["name", "caller", "salt", "tok", "spender", "auth", "gas"], "dest"), "max_len": 40, "workers": 16},
+             "need": C18_NEED + ["DeployRemoteCanonical/encodable"], "control": c18_control, "max_len": 40, "workers": 16},
             ITS_TRACE,
         ],
         "level_text": "TLC proves 'announces exactly the id derived from the caller's (deployer, salt) or the token address with the token's actual metadata and no minter, only for a registered token, a trusted destination, representable metadata and a paid, authorised gas amount; moves nothing but the gas; failures change nothing' on every transition of a finite instance (gas is finite); transitions are executed against the real service with a Stellar asset contract and a metadata-forging canonical token; the announced bytes are decoded by the harness's own codec.",
